@@ -123,7 +123,8 @@ DecField(kind, b) ==
   CASE kind = "u8" -> In(b[1])
     [] kind = "u16" -> In(FromLE16(b))
     [] kind \in {"u32", "serial"} -> In(FromLE32(b))
-    [] kind = "bool" -> IF b[1] = 0 THEN In(FALSE) ELSE IF b[1] = 1 THEN In(TRUE) ELSE Out(FALSE)
+    \* a boolean has no 'no value': a byte other than 0/1 can only fail the call (no acceptable value at all)
+    [] kind = "bool" -> IF b[1] = 0 THEN In(FALSE) ELSE IF b[1] = 1 THEN In(TRUE) ELSE [dom |-> "out", vals |-> {}]
     [] kind = "ipv4" -> In(b)
     [] kind = "addrport" -> In([ip |-> Slice(b, 1, 4), port |-> b[5] + 256 * b[6]])
     [] kind = "mac" -> In(b)
